@@ -224,6 +224,27 @@ def check_copy_contents(ctx, rule, m):
               "copy(include_frequencies=False): " + "; ".join(sorted(set(probs[False]))[:3]), cp.where)
 
 
+def check_default_init_values(ctx, rule, m):
+    """HistogramBase.__init__: class-level defaults are copied, then the caller's keyword arguments are laid over them."""
+    # __init__ copies default_init_values before updating
+    init = _get(m, "HistogramBase", "__init__")
+    ok = False
+    for p in function_paths(init.node):
+        from sa.util import Env
+        env = Env()
+        for step in p:
+            if step[0] == "stmt":
+                for cc in calls_in(step[1]):
+                    if isinstance(cc.func, ast.Attribute) and cc.func.attr == "update":
+                        d = env.resolve(cc.func.value)
+                        if isinstance(d, ast.Call) and U(d.func) == "self.default_init_values.copy":
+                            ok = True
+            env.step(step)
+    uses = [n for n in ast.walk(init.node) if isinstance(n, ast.Attribute) and n.attr == "default_init_values"]
+    ctx.check(ok or not uses, rule, "HistogramBase.__init__:default_init_values",
+              "updated on a copy only", "default_init_values is updated without copying it first", init.where)
+
+
 def run(ctx):
     m = ctx.model
     ctx.rule("C12.a", "every mutable component of the histogram returned by a public non-in-place operation is FRESH", 25)
@@ -280,23 +301,7 @@ def run(ctx):
                                     bad.append(f"{fi.qualname}: `{U(st)[:60]}`")
             ctx.check(not bad, "C12.c", f"{c.name}.{aname}", "never written through an instance or the class",
                       "class-level mutable is modified in place: " + "; ".join(bad[:3]), c.where)
-    # __init__ copies default_init_values before updating
-    init = _get(m, "HistogramBase", "__init__")
-    ok = False
-    for p in function_paths(init.node):
-        from sa.util import Env
-        env = Env()
-        for step in p:
-            if step[0] == "stmt":
-                for cc in calls_in(step[1]):
-                    if isinstance(cc.func, ast.Attribute) and cc.func.attr == "update":
-                        d = env.resolve(cc.func.value)
-                        if isinstance(d, ast.Call) and U(d.func) == "self.default_init_values.copy":
-                            ok = True
-            env.step(step)
-    uses = [n for n in ast.walk(init.node) if isinstance(n, ast.Attribute) and n.attr == "default_init_values"]
-    ctx.check(ok or not uses, "C12.c", "HistogramBase.__init__:default_init_values",
-              "updated on a copy only", "default_init_values is updated without copying it first", init.where)
+    check_default_init_values(ctx, "C12.c", m)
 
 
 def _assigned_attrs(fn: ast.FunctionDef, obj: str):
